@@ -1,9 +1,11 @@
 """C12 — loading any model text yields a usable model or an error, never a crash.  (owner: builder-total)
 
-Proof: coq/Props/C12.v over coq/C12/Model.v (clause/entry counts of decision tables; requirement and type-reference graph; outcomes
-Ok | Err | Crash | Diverge).  Correspondence = fault injection through `dv guard .. model` (parse -> ModelEvaluator::new ->
+Proof: coq/Props/C12.v over coq/C12/Model.v (decision tables with every vector index of decision_table.rs as a bounds test; requirement and
+type-reference graph; outcomes Ok | Err | Panic | Diverge).  Correspondence = fault injection through `dv guard .. model` (parse -> ModelEvaluator::new ->
 evaluate_invocable for every invocable, each request in a fresh 8 MiB-stack thread under catch_unwind and a wall-clock limit, process
 death observed), in the debug and the release build:
+  (0) a generated family of decision tables (all hit policies x numbers of clauses x entries per rule x match patterns): outcome class of the
+      build and value of every evaluation of the Coq model (table_build / table_eval) against the real code;
   (1) generated models whose outcome class the model predicts (requirement graphs with and without cycles between decisions, knowledge
       models and item definitions; tables whose rules disagree with their clauses);
   (2) every example model of /repo/examples/src unchanged, and with single structural faults (delete / duplicate / empty / swap an element;
@@ -84,8 +86,9 @@ def predicted_cases():
         for n_out in (1, 2):
             for rule in [(n_in, n_out), (n_in - 1, n_out), (n_in + 1, n_out), (n_in, n_out - 1), (n_in, n_out + 1), (0, 0)]:
                 body = G.gen_decision(0, [('i', 0)], '', table=G.gen_table(n_in, n_out, [(n_in, n_out), rule]))
+                tt = G.table_term(dict(policy=3, n_in=n_in, outs=[(n_out > 1, [], None)] * n_out, rules=[(n_in, '-', [1] * n_out), (rule[0], '-', [1] * rule[1])]))
                 out.append(('table-in%d-out%d-rule%d/%d' % (n_in, n_out, rule[0], rule[1]), G.HDR + inp + body + '</definitions>\n', ['d0'], ['i0'],
-                            'build 1000 (mk_defs [mk_table %d %d [mk_rule %d %d; mk_rule %d %d]] [(0, [])])' % (n_in, n_out, n_in, n_out, rule[0], rule[1]), False))
+                            'build 1000 (mk_defs [%s] [(0, [])])' % tt, False))
     for name, g in G.long_cycle_graphs().items():
         gterm = '[' + '; '.join('(%d, %s)' % (i, nat_list(js)) for i, js in sorted(g.items())) + ']'
         body = ''.join(G.gen_decision(i, [('d', j) for j in js] + [('i', 0)], ' + '.join(['i0'] + ['d%d' % j for j in js])) for i, js in sorted(g.items()))
@@ -108,6 +111,30 @@ def predicted_cases():
     return out
 
 
+def table_compare(ctx, c, r, build, hist):
+    """decision table family: outcome of the Coq model (table_build; table_eval under the three contexts) against the real builder / evaluator"""
+    mb, mev = c['model']
+    mb = mb.name
+    want = {'Ok': 'ok', 'Err': 'err'}.get(mb, 'panic')
+    case = {'model_xml': c['label'], 'build': build}
+    if r['parse'] != 'ok' or r['build'] != want:
+        ctx.corr_broken('decision table: outcome of build_decision_table_evaluator', case, {'parse': r['parse'], 'build': r['build'], 'msg': r.get('build_msg', '')[:200]}, mb)
+        return
+    hist['build ' + want] = hist.get('build ' + want, 0) + 1
+    if want != 'ok':
+        return
+    pol = G.POLICIES[c['table']['policy']][2]
+    for i, (me, x) in enumerate(zip(mev, r['results'])):
+        exp = G.table_expected(me, c['table'])
+        obs = G.table_observed(x.get('v'))
+        kind = 'null' if exp is None else exp[0]
+        k = '%s: %s' % (pol, kind)
+        hist[k] = hist.get(k, 0) + 1
+        ctx.corr_checked += 1
+        if exp != obs:
+            ctx.corr_broken('decision table: value of the evaluation', dict(case, context=G.TABLE_CONTEXTS[i]), x, str(me))
+
+
 def run(ctx):
     ctx.proof_gate()
     ctx.build_harness()
@@ -115,12 +142,16 @@ def run(ctx):
     rng = ctx.rng
     pc = predicted_cases()
     model = ctx.run_model(HEADER, [c[4] for c in pc], shard_size=max(8, len(pc) // 16 + 1), tag='p')
+    fam = G.table_family(rng, ctx.pick(600, None), ctx.pick(400, 5000))
+    fam_model = ctx.run_model(HEADER, [c[2] for c in fam], shard_size=max(8, len(fam) // 16 + 1), tag='t')
     files = G.example_files(core.REPO)
-    stats = {'n_sites': 0, 'n_faults': 0, 'fault_hist': {}, 'classes': {}, 'first_fault': None}
+    stats = {'tables': {}, 'n_sites': 0, 'n_faults': 0, 'fault_hist': {}, 'classes': {}, 'first_fault': None}
 
     def produce():
         for (label, xml, inv, inputs, _, lenient), m in zip(pc, model):
             yield {'tag': 'predicted', 'label': label, 'xml': xml, 'calls': [[n, c] for n in inv for c in G.ctx_texts(inputs)], 'model': m.name if isinstance(m, App) else str(m), 'lenient': lenient}
+        for (label, xml, _, t), m in zip(fam, fam_model):
+            yield {'tag': 'table', 'label': label, 'xml': xml, 'calls': [['d0', c] for c in G.TABLE_CONTEXTS], 'model': m, 'table': t}
         for label, xml, inv, inputs in G.generated_models():
             yield {'tag': 'generated', 'label': label, 'xml': xml, 'calls': [[n, c] for n in inv for c in G.ctx_texts(inputs)]}
         allsites, trees = [], {}
@@ -195,6 +226,8 @@ def run(ctx):
                 classes[k] = classes.get(k, 0) + 1
                 if r['build'] == 'ok' and c['tag'] != 'example':
                     ctx.nontrivial.add(c['label'])
+                if c['tag'] == 'table':
+                    table_compare(ctx, c, r, build, stats['tables'])
                 if c['tag'] == 'predicted' and r['parse'] == 'ok':
                     want = {'Ok': 'ok', 'Err': 'err'}.get(c['model'])
                     if want is None:
@@ -216,19 +249,25 @@ def run(ctx):
     n_sites, fault_hist, classes = stats['n_sites'], stats['fault_hist'], stats['classes']
     ctx.sample({'predicted': pc[3][0], 'model_term': pc[3][4]})
     ctx.sample({'fault': stats['first_fault']})
+    ctx.sample({'table': fam[-1][0], 'model_term': fam[-1][2][:300]})
     return ctx.finish(
-        rule='generated models with a predicted outcome (requirement graphs: chains, diamond, self loop, 2- and 3-cycles, tail into a cycle, a cycle nothing else refers to, doubled requirements, dangling reference — between decisions and between '
+        rule='decision table family against the Coq model of decision_table.rs (table_build / table_eval: outcome class of the build and the value of every evaluation): all 11 hit policies '
+             '(UNIQUE, ANY, PRIORITY, FIRST, RULE ORDER, OUTPUT ORDER, COLLECT list / COUNT / SUM / MIN / MAX) x {0,1} input clauses x {0,1,2} output clauses x one rule with {0,1,2} output entries '
+             'that matches or not (exhaustive); two rules with every combination of {0,1,2} output entries and 4 match kinds (sampled in quick, all in thorough); random tables with 1..4 rules, '
+             '0..2 input and 0..3 output clauses, names on all / some / no clauses, output values (priorities), default output entries, rules with an entry less or more; each under 3 input contexts.  '
+             'generated models with a predicted outcome (requirement graphs: chains, diamond, self loop, 2- and 3-cycles, tail into a cycle, a cycle nothing else refers to, doubled requirements, dangling reference — between decisions and between '
              'knowledge models; rings of length 1..5 entered directly, through tails and with exits; item definition cycles through components nested 1..4 deep, through collections and references; tables whose second rule has one entry less / more than the input or output clauses; item definitions referring to themselves directly, mutually and through '
              'components); every .dmn under examples/src unchanged; single structural faults at sampled (quick) or all (thorough) positions: delete / duplicate / empty / swap of every element, '
              'delete / empty / garble of every attribute and text node, every href retargeted to a missing element, its own element, an ancestor, or stripped of #; pairs of faults (thorough); '
              'random byte corruption.  Every invocable of the (faulted) model is evaluated with an empty context and with all inputs bound.  non-trivial = the faulted model still builds',
-        extra_cov={'exhaustive': False, 'builds': ['debug', 'release'], 'example_files': len(files), 'fault_sites_x_faults_available': n_sites, 'faults_run_per_build': stats['n_faults'],
+        extra_cov={'exhaustive': False, 'builds': ['debug', 'release'], 'decision_tables_in_family': len(fam), 'decision_table_outcomes(both builds)': stats['tables'], 'example_files': len(files), 'fault_sites_x_faults_available': n_sites, 'faults_run_per_build': stats['n_faults'],
                    'fault_histogram': fault_hist, 'outcome_classes(both builds)': classes, 'per_request': '8 MiB stack thread, catch_unwind per phase, %d ms limit, process death observed' % LIMIT_MS},
         assumptions=['the stack holds more frames of the builder recursion than the requirement graph has rows (length (deps d) < fuel); no numbering is assumed any more: a model that passes the check has one (C12_passed_check_numbering)',
                      'the recursion of the builders and evaluators follows only references that are edges of the graph check_cyclic_dependencies collects'],
         trusted=['PARTIAL: roxmltree, the real stack size, FEEL parsing/evaluation of the texts inside a model are not modelled; observed by the fault-injection run only',
                  'the cycle search (depth-first, explicit stack) is proved exact for every graph (C12_cycle_check_exact); its tie to check_cyclic_dependencies, and the tie of the collected graph to the references the builders '
-                 'and evaluators really follow, is the predicted-outcome run (reported gap: the input decisions of a decision service are evaluated by the service but are not edges of the collected graph, NOTES-C12.md)',
+                 'and evaluators really follow, is the predicted-outcome run (the gap found in round 3 - input decisions of a decision service - is closed by 6a3e4f8, NOTES-C12.md)',
+                 'the decision table model (table_build / table_eval) is hand-transliterated from decision_table.rs; its tie is the table family run: outcome class and value (null / number / context / list) agree on every generated table',
                  'harness dv guard + dv model (owner builder-dt)'])
 
 
@@ -248,15 +287,24 @@ def replay(ctx, path):
 
 
 MANIFEST = dict(
-    technique='Coq proof over an abstract Definitions model with explicit Crash/Diverge outcomes (table clause/entry counts, requirement and type-reference graph, depth-first cycle search); '
+    technique='Coq proof over an abstract Definitions model with explicit Panic/Diverge outcomes (decision tables: every vector index of decision_table.rs as a bounds test; requirement and type-reference graph, '
+              'depth-first cycle search); the table model is run against the real builder/evaluator on a generated table family (outcome class and value); '
               'fault injection through the real loader/builder/evaluator in guarded threads / child processes, debug and release builds',
-    text="PARTIAL. Proved (coq/Props/C12.v, closed under the global context): building a decision table is Ok or Err for all clause and entry counts, Ok exactly when every rule matches the clauses, and evaluation never indexes an empty result; "
-         "the cycle search of check_cyclic_dependencies (depth-first, explicit stack; model dfs_loop/dfs_all) is EXACT on every graph of any size (C12_cycle_check_exact: it ends within its fuel, reports a cycle iff some node of the collected graph is on a cycle, "
-         "otherwise returns; invariant white/grey/black with the finishing order as topological numbering; duplicate rows and targets, self references, dangling targets and any order of rows included); hence, with no numbering assumed (C12_total): "
-         "every model with a cycle is rejected with an error before any recursion, and every other model builds to Ok/Err (decided by its tables alone) and every invocable of a built model evaluates, with a stack of more frames than the graph has rows; "
-         "on EVERY cyclic graph the recursion of the builders cannot end for any stack size, so the pinned code aborts on every cyclic model; item definitions are trees of any depth: the collected type references are exactly the references occurring anywhere "
-         "in the tree, so a self reference through components of ANY depth is a cycle of the searched graph and is found. The four confirmed defects of the pinned commit are refuted by witnesses and fixed (2 commits). "
+    text="PARTIAL. Proved (coq/Props/C12.v, closed under the global context). Decision tables: the model transliterates parse_decision_table and the evaluation closure of builders/decision_table.rs over an abstract table "
+         "(hit policy, clauses with name / output values / default entry, per rule the number of input entries and the output entry values, which rules match) with a Panic arm at every vector index "
+         "(rule.input_entries[i], rule.output_entries[i], component_names[i], default_output_values[0], matching_rules[0], output_entry_values[0]); proved: the build is Ok or Err for every table and Ok exactly when every rule "
+         "has as many entries as the table has clauses (C12_table_build_total, _ok_iff); the evaluation reaches no Panic arm for every table, hit policy and pattern of matching rules (C12_table_eval_total, no hypothesis needed); "
+         "both statements are false of the earlier code: witnesses C12_table_build_orig_refuted, C12_table_eval_orig_refuted, and C12_table_eval_orig2_panic_iff says exactly when the code before d6b0858 panicked "
+         "(COLLECT with SUM/MIN/MAX, at most one named output clause, a matching rule without output entry). What is NOT in these theorems: FEEL values, the texts of the entries, the XML reader. "
+         "Requirements: the cycle search of check_cyclic_dependencies (depth-first, explicit stack; model dfs_loop/dfs_all) is EXACT on every graph of any size (C12_cycle_check_exact: it ends within its fuel, reports a cycle iff some node of the collected graph is on a cycle, "
+         "otherwise returns; duplicate rows and targets, self references, dangling targets and any order of rows included); hence, with no numbering assumed (C12_total): "
+         "every model with a cycle is rejected with an error before any recursion, and every other model builds to Ok/Err (decided by its tables alone). C12_built_model_evaluates / C12_evaluate_total say: for a built model the recursion over the requirements of an "
+         "invocable ends within a stack of more frames than the graph has rows (recursion depth) and no table of the model reaches a Panic arm under any match patterns; they say nothing about the values or the input context beyond that. "
+         "On EVERY cyclic graph the recursion of the builders cannot end for any stack size, so the pinned code aborts on every cyclic model; item definitions are trees of any depth: the collected type references are exactly the references occurring anywhere "
+         "in the tree, so a self reference through components of ANY depth is a cycle of the searched graph and is found. Defect witnesses about whole models (4): C12_orig_refuted_short_rule, _no_output, _cycle (pinned commit) and "
+         "C12_orig2_refuted_no_output_aggregate (left by the first table repair, found by the audit); 4 fix commits in /repo (tables 012211c and d6b0858, cycles 285ae4c, service input decisions 6a3e4f8 - the last has no Coq witness). "
          "Not modelled, only observed: roxmltree, the real stack, the FEEL texts inside models, and which references the builders/evaluators follow (the model takes them to be the edges the check collects). "
+         "Correspondence: ~1300 (quick) / ~10k (thorough) generated decision tables, model outcome and value against the real code under 3 contexts, both builds. "
          "Fault injection: every example model plus ~6000 (quick) / all ~169k (thorough) single structural faults, pairs of faults, byte corruption; parse -> ModelEvaluator::new -> every invocable, both builds.",
-    note='Trusted: Coq kernel + vm_compute, hand-written abstract model (tied by predicted-outcome models), harness dv guard/dv model, Python fault injector (xml.etree). '
+    note='Trusted: Coq kernel + vm_compute, hand-written abstract model (tied by the decision table family and the predicted-outcome models), harness dv guard/dv model, Python fault injector (xml.etree). '
          'A panic, abort, stack overflow or hang at parse, build or evaluation of any faulted model is a VIOLATION with the model text as replay.')
